@@ -76,6 +76,19 @@ CallObl(e) == <<
   <<"result-class", Quiet(e) => e.res \in ResultClasses(e.fn)>>,
   <<"honest-served", e.honest => e.res = "ok">> >>
 
+\* Accessors next to the codecs - beyond the listed properties (the checks report a rejection of these as an
+\* observation, not as a violation): Equal / Equals holds exactly when both encodings decode to the same value,
+\* Type() is the tag on the wire, TruncatedTokenKeyID() the key id byte.
+KeyIdByte(m, v) == IF m \in {"t1req", "t2req", "t5req"} THEN v.key_id ELSE -1
+ApiObl(e) ==
+  LET da == Dec(e.m, e.a)
+      db == Dec(e.m, e.b)
+  IN <<
+  <<"beyond:quiet", e.panic = "">>,
+  <<"beyond:equal-iff-same-value", (e.ok /\ da.ok /\ db.ok) => (e.equal <=> da.val = db.val)>>,
+  <<"beyond:type-is-wire-tag", (e.ok /\ Len(e.a) >= 2) => e.type = e.a[1] * 256 + e.a[2]>>,
+  <<"beyond:truncated-id-is-key-id-byte", (e.ok /\ da.ok /\ KeyIdByte(e.m, da.val) >= 0) => e.trunc = KeyIdByte(e.m, da.val)>> >>
+
 Obl(e) ==
   CASE e.op = "Dec" -> DecObl(e)
     [] e.op = "Enc" -> << <<"quiet", Quiet(e)>>, <<"marshal-is-encoding", e.out = Enc(e.m, e.val)>> >>
@@ -89,6 +102,7 @@ Obl(e) ==
     [] e.op = "RMarshal" -> <<
          <<"quiet", Quiet(e)>>,
          <<"marshal-is-current-value", cur.known => e.out = Enc(e.m, cur.val)>> >>
+    [] e.op = "Api" -> ApiObl(e)
     [] OTHER -> << <<"unknown-event", FALSE>> >>
 
 Failed(e) == LET o == Obl(e) IN {o[i][1] : i \in {j \in 1..Len(o) : ~o[j][2]}}
